@@ -33,7 +33,7 @@ def outcome_of(sim, case):
 
 def machine(tier, ctx):
     import sys
-    return hist.make_machine(sys.modules[__name__], tier, ctx, checks=CHECKS,
+    return hist.make_machine(sys.modules[__name__], tier, ctx, checks=CHECKS, cfg_strategy=hist.sim_config(None, ('mem', 'amem', 'local')),
                              weights=dict(snapshot=5, delete=2, clean=1, restore=0, list=0, concurrent=1, add_user=2, repeat=3))
 
 
